@@ -12,7 +12,7 @@ from typing import (
 )
 
 from .combinatorial_class import CombinatorialClass
-from .strategies.rule import AbstractRule, Rule
+from .strategies.rule import AbstractRule, ReverseRule, Rule
 
 if TYPE_CHECKING:
     from .combinatorial_class import CombinatorialObject
@@ -434,6 +434,14 @@ class Bijection(Generic[ClassType1, ObjType1, ClassType2, ObjType2]):
         """Create a bijection object between two specifications if possible."""
         iso = Isomorphism[ClassType1, ObjType1, ClassType2, ObjType2](spec, other)
         if not iso.are_isomorphic():
+            return None
+        if any(
+            isinstance(rule, ReverseRule)
+            and len(rule.original_rule.non_empty_children()) != 1
+            for rule in (*spec.rules_dict.values(), *other.rules_dict.values())
+        ):
+            # objects cannot be mapped through the reverse of a non-equivalence
+            # rule (ReverseRule.forward_map): there is no bijection to hand out
             return None
         return cls(spec, other, iso.get_order(), iso.get_order_data())
 
